@@ -4,6 +4,14 @@
 //! single token and guarantees that `unpark` before `park` makes the next `park` return
 //! immediately, so no second atomic state machine is needed here.
 
+#[cfg(grevm_verif)]
+use grevm_verif_rt::{
+    sync::OnceLock,
+    thread::{self, Thread},
+};
+#[cfg(grevm_verif)]
+use std::time::Duration;
+#[cfg(not(grevm_verif))]
 use std::{
     sync::OnceLock,
     thread::{self, Thread},
